@@ -110,7 +110,7 @@ Definition tar_case_bad (c : tar_case_t) : list N :=
   | CFuel => [9]
   | COk d =>
       if new_failed o then [1]
-      else derived_bad (td_filesz d) bs (mtime_of_header (td_mtime d)) o
+      else derived_bad (td_filesz d) bs (tar_mtime_of_header (td_mtime d)) o
            ++ blocks_bad (tar_read_block sched_state sched_read (fun data => (data, sched)) bs es d) o
   end.
 
